@@ -15,6 +15,7 @@ for id in $ids; do
   else
     VERIF_REPO=$wt timeout 3000 ./check $prop > /tmp/seedreg_$id.out 2>&1; rc=$?
     case $rc in 1) r=DETECTED;; 0) r=MISSED;; *) r="MACHINERY(rc=$rc)";; esac
+    if grep -q '"obsolete"' $V/seeded/$id/meta.json; then r="$r (OBSOLETE: no longer breaks the property, see meta.json)"; fi
     echo "$id $r $(grep -m1 'detail:' /tmp/seedreg_$id.out | cut -c1-160)"
   fi
   git -C /repo worktree remove --force $wt 2>/dev/null; git -C /repo worktree prune
